@@ -1,4 +1,5 @@
 import CoupeModel.Proofs.ParAlgos
+import CoupeModel.Proofs.ParAlgosRounded
 import CoupeModel.Proofs.ParAlgosMj
 import CoupeModel.Proofs.ParAlgosSfc
 
@@ -15,7 +16,12 @@ decision rayon takes during one call: the binary split tree of each indexed `fol
 (one per bisection node and per iteration of the cut search for Rcb, one per pass of
 `weighted_quantiles` for Hilbert), the block lengths of MultiJagged's scans, the arrival
 order of the `fetch_add`s, the order in which stores to the id array take effect.  All
-theorems quantify over ALL schedules; arithmetic is exact (`Int`/`Nat`).
+theorems quantify over ALL schedules; arithmetic is exact (`Int`/`Nat`) – except in the
+`…_rounded` theorems for Rcb (`Proofs/ParAlgosRounded.lean`): since /repo f4e2819 (defect N11)
+the reduce of `par_rcb_split` keeps the first of several equally near points like the fold
+does, the pivot INDEX is the sequential one along every split tree, and Rcb is schedule free
+over any coordinate type whose comparisons form a strict weak order, whatever `-`, `+`,
+`/ 2.0` round to.
 
 See `C06_algos` (end of file) for what remains outside.
 -/
@@ -39,11 +45,17 @@ theorem rcb_scan_tree_free (tr : SplitTree) (items : List (Rcb.Item Int)) (coord
     scanT .leaf items coord t = Rcb.scan items coord t :=
   ⟨scanT_spec tr items coord t, scanT_leaf items coord t⟩
 
-/-- The tie: two trees name different pivots (index 0 / index 2) – same coordinate. -/
+/-- **… and it is literally `Rcb.scan` along EVERY tree, pivot index included** (reduce
+closure of /repo f4e2819: ties keep the left operand). -/
+theorem rcb_scan_index_tree_free (tr : SplitTree) (items : List (Rcb.Item Int)) (coord : Nat)
+    (t : Int) : scanT tr items coord t = Rcb.scan items coord t :=
+  scanT_eq_scan tr items coord t
+
+/-- The tie: two trees name the same pivot (index 0, the first of the two items at 7). -/
 example :
     let items : List (Rcb.Item Int) := [⟨0, 1, [7, 0]⟩, ⟨1, 1, [2, 0]⟩, ⟨2, 1, [7, 5]⟩, ⟨3, 1, [9, 0]⟩]
     scanT .leaf items 0 5 = ⟨1, 1, some (0, 2)⟩ ∧
-    scanT (.node 2 .leaf .leaf) items 0 5 = ⟨1, 1, some (2, 2)⟩ := by decide
+    scanT (.node 2 .leaf .leaf) items 0 5 = ⟨1, 1, some (0, 2)⟩ := by decide
 
 /-- **The cut search is a function of the item multiset.**  For two arrangements of the
 same items and two families of split trees, `par_rcb_split` takes the same exit after the
@@ -51,7 +63,9 @@ same number of iterations (or exhausts the same fuel), returns the same `weight_
 split position, and the same items on the left and on the right (`SplitRel`; the order
 inside a half may differ); it never leaves its arrays.  The hypothesis `DistExact` is where
 exact arithmetic enters: the pivots of the two runs are at the same distance, hence – only
-then – have the same coordinate, and `reorder_split` compares with that coordinate only. -/
+then – have the same coordinate, and `reorder_split` compares with that coordinate only.
+(`DistExact` is needed for two ARRANGEMENTS, `dist_exact_needed`.  For ONE arrangement and
+two families of split trees – what two pool sizes are – it is not: `rcb_split_schedule_free_rounded`.) -/
 theorem rcb_split_arrangement_free (hexact : DistExact) (trees trees' : Nat → SplitTree)
     (wt : Int → Int → Bool) (coord : Nat) (sum : Int) (items items' : List (Rcb.Item Int))
     (hp : items.Perm items') (fuel it : Nat) (mn mx : Int) (prev : Option Nat) (mv : Bool) :
@@ -151,12 +165,18 @@ example : runT demoSched 1000 (-1000) (fun _ _ => false) ⟨2, 100⟩ 2
   { lt := fun a b => decide (a < b), le := fun a b => decide (a ≤ b), add := fun a b => a + b,
     sub := fun a b => (a - b) / 4 * 4, half := fun a => a / 2, zero := 0, ltInf := fun _ => true }
 
-/-- **`DistExact` is needed.**  With rounding distances it fails, and the ids are NOT a
-function of the item multiset: items at 9, 10, 11 are all at rounded distance 4 from the
-target 5, the first one met becomes the pivot, and item 1 (coordinate 9) lands in part 1 under
-one arrangement and in part 0 under the other.  (Arrangements of a range are what different
-split trees present to the reduce operator: this is the schedule dependence exact arithmetic
-excludes.) -/
+/-- **`DistExact` is needed for ARRANGEMENT freedom.**  With rounding distances it fails, and
+the ids are NOT a function of the item multiset: items at 9, 10, 11 are all at rounded
+distance 4 from the target 5, the first one met becomes the pivot, and item 1 (coordinate 9)
+lands in part 1 under one arrangement and in part 0 under the other.
+This is also the mechanism of **defect N11** (fixed by /repo f4e2819): the reduce closure the
+code had before (`nearestMergeOld`/`mergeGOld`: on a tie the RIGHT operand won, while the fold
+keeps the FIRST item) made the pivot depend on where the blocks end, so different split trees
+acted on the cut search like different arrangements –
+`n11_old_reduce_partition_depends_on_tree` below replays exactly these two outcomes with ONE
+arrangement and two split trees.  With the repaired closure split trees no longer matter
+(`rcb_bb_schedule_free_rounded`); the ORDER of the input still does, which is not a C06
+matter (the same input is given to every pool). -/
 theorem dist_exact_needed :
     let A : List (Rcb.Item Int) := [⟨0, 1, [0]⟩, ⟨1, 1, [9]⟩, ⟨2, 1, [10]⟩, ⟨3, 1, [11]⟩]
     let B : List (Rcb.Item Int) := [⟨0, 1, [0]⟩, ⟨2, 1, [10]⟩, ⟨1, 1, [9]⟩, ⟨3, 1, [11]⟩]
@@ -167,6 +187,134 @@ theorem dist_exact_needed :
       = .ok [0, 0, 1, 1] := by
   refine ⟨fun h => absurd (h 9 10 5 (by decide)) (by decide), by decide, by decide +kernel,
     by decide +kernel⟩
+
+/-! ### Rcb without exact coordinate arithmetic (since /repo f4e2819) -/
+
+/-- The comparisons of the exact instance are a strict weak order … -/
+theorem distLaws_int : DistLaws Int := by
+  refine ⟨?_, ?_, ?_, ?_⟩
+  · intro a b c h1 h2
+    have h1 : a < b := of_decide_eq_true h1
+    have h2 : b < c := of_decide_eq_true h2
+    exact decide_eq_true (by omega)
+  · intro a b c h1 h2
+    have h1 : a < b := of_decide_eq_true h1
+    have h2 : ¬ c < b := of_decide_eq_false h2
+    exact decide_eq_true (by omega)
+  · intro _ _ _; rfl
+  · intro _ _ _ h; cases h
+
+/-- … and so are those of the ROUNDING instance (only its subtraction differs): the
+hypotheses of the `…_rounded` theorems are met by an arithmetic for which `DistExact` fails. -/
+theorem distLaws_rounding : @DistLaws Int roundingCoord ∧
+    @Rcb.OrderLawsOn Int roundingCoord (fun _ => True) := by
+  refine ⟨@DistLaws.mk Int roundingCoord ?_ ?_ ?_ ?_,
+    @Rcb.OrderLawsOn.mk Int roundingCoord _ ?_ ?_ ?_⟩
+  · intro a b c h1 h2
+    have h1 : a < b := of_decide_eq_true h1
+    have h2 : b < c := of_decide_eq_true h2
+    exact decide_eq_true (by omega)
+  · intro a b c h1 h2
+    have h1 : a < b := of_decide_eq_true h1
+    have h2 : ¬ c < b := of_decide_eq_false h2
+    exact decide_eq_true (by omega)
+  · intro _ _ _; rfl
+  · intro _ _ _ h; cases h
+  · intro a b _ _
+    show decide (a ≤ b) = !decide (b < a)
+    by_cases h : a ≤ b
+    · have : ¬ b < a := by omega
+      simp [h, this]
+    · have : b < a := by omega
+      simp [h, this]
+  · intro a _
+    show decide (a < a) = false
+    simp
+  · intro a b c _ _ _ h1 h2
+    have h1 : a < b := of_decide_eq_true h1
+    have h2 : ¬ c < b := of_decide_eq_false h2
+    exact decide_eq_true (by omega)
+
+/-- **The 4-tuple of `par_rcb_split` along every split tree, over ANY coordinate type**: the
+model's sequential `Rcb.scan` – count, weight, nearest distance and pivot INDEX.  `DistLaws`
+constrains the comparisons only (`<` a strict weak order compatible with `< INFINITY`: `f32`
+without NaN); `point - split_target` may round, two different coordinates may be equally
+near. -/
+theorem rcb_scan_rounded_tree_free {α : Type} [Rcb.Coord α] (laws : DistLaws α) (tr : SplitTree)
+    (items : List (Rcb.Item α)) (coord : Nat) (t : α) :
+    scanG mergeG tr items coord t = Rcb.scan items coord t :=
+  scanG_eq_scan laws tr items coord t
+
+/-- **The cut search under every family of split trees is the sequential `Rcb.split`** –
+literally: same pivot, same reordering, same halves in the same order – over any coordinate
+type.  No `DistExact`. -/
+theorem rcb_split_schedule_free_rounded {α : Type} [Rcb.Coord α] (laws : DistLaws α)
+    (trees : Nat → SplitTree) (wt : Int → Int → Bool) (coord : Nat) (sum : Int)
+    (items : List (Rcb.Item α)) (fuel it : Nat) (mn mx : α) (prev : Option Nat) (mv : Bool) :
+    splitG mergeG trees wt coord sum items fuel it mn mx prev mv =
+      Rcb.split wt coord sum items fuel it mn mx prev mv :=
+  splitG_eq_split laws trees wt coord sum items fuel it mn mx prev mv
+
+/-- **The recursion tree under every family of split trees is the sequential one**
+(`Rcb.recurse`), over any coordinate type.  No `DistExact`. -/
+theorem rcb_ids_schedule_free_rounded {α : Type} [Rcb.Coord α] (laws : DistLaws α)
+    (wt : Int → Int → Bool) (cfg : Rcb.Cfg) (trees : Nat → Nat → SplitTree) (k : Nat)
+    (items : List (Rcb.Item α)) (iterId coord : Nat) (sum : Int) (lo hi : List α) :
+    recurseG mergeG wt cfg trees k items iterId coord sum lo hi =
+      Rcb.recurse wt cfg k items iterId coord sum lo hi :=
+  recurseG_eq_recurse laws wt cfg trees k items iterId coord sum lo hi
+
+/-- **Rcb is schedule free without exact coordinate arithmetic** (bounding box given; the
+bounding box itself is a min/max fold, comparisons only).  Under EVERY schedule – split tree
+of the weight sum, of every fold of every cut search, order of the leaf stores – `rcb` over
+the coordinate type `α` returns what the sequential model `Rcb.runBB` returns.  Hypotheses:
+the comparisons of `α` are a strict weak order (`laws`, `ol`: no NaN); NOTHING about `-`, `+`,
+`/ 2.0`.  What stays exact: the WEIGHTS (`Int`; the parallel weight sums `weights.sum()` and
+`weight_left` are associative – for `f64` weights that is the harness' `ExactSums` regime). -/
+theorem rcb_bb_schedule_free_rounded {α : Type} [Rcb.Coord α] (laws : DistLaws α)
+    (ol : Rcb.OrderLawsOn (fun _ : α => True)) (s : RcbSched) (hs : s.Valid)
+    (wt : Int → Int → Bool) (cfg : Rcb.Cfg) (iter : Nat) (pts : List (List α)) (ws : List Int)
+    (plen : Nat) (lo hi : List α) :
+    runBBG mergeG s wt cfg iter pts ws plen lo hi = Rcb.runBB wt cfg iter pts ws plen lo hi :=
+  runBBG_eq_runBB laws ol s hs wt cfg iter pts ws plen lo hi
+
+/-- Any two schedules agree – what the harness observes across pool sizes – for rounded
+coordinate arithmetic. -/
+theorem rcb_schedule_free_rounded {α : Type} [Rcb.Coord α] (laws : DistLaws α)
+    (ol : Rcb.OrderLawsOn (fun _ : α => True)) (s s' : RcbSched) (hs : s.Valid) (hs' : s'.Valid)
+    (wt : Int → Int → Bool) (cfg : Rcb.Cfg) (iter : Nat) (pts : List (List α)) (ws : List Int)
+    (plen : Nat) (lo hi : List α) :
+    runBBG mergeG s wt cfg iter pts ws plen lo hi = runBBG mergeG s' wt cfg iter pts ws plen lo hi := by
+  rw [rcb_bb_schedule_free_rounded laws ol s hs, rcb_bb_schedule_free_rounded laws ol s' hs']
+
+/-- On the exact instance the generic model IS the model of the theorems above. -/
+theorem rcb_rounded_exact_agree (s : RcbSched) (hs : s.Valid) (wt : Int → Int → Bool)
+    (cfg : Rcb.Cfg) (iter : Nat) (pts : List (List Int)) (ws : List Int) (plen : Nat)
+    (lo hi : List Int) :
+    runBBG mergeG s wt cfg iter pts ws plen lo hi = runBBT s wt cfg iter pts ws plen lo hi := by
+  rw [rcb_bb_schedule_free_rounded distLaws_int Coupe.Rcb.intOrderLaws s hs, rcb_bb_schedule_free s hs]
+
+/-- **Defect N11 (fixed by /repo f4e2819), whole algorithm, kernel checked.**  One
+arrangement of four points (0, 9, 10, 11; rounding subtraction: 9, 10, 11 are all at
+distance 4 from the target 5), one bisection, two split trees for the fold of the cut search
+(one block / two blocks of two – what one thread and several threads do beyond
+`with_min_len(4096)`):
+* with the reduce closure the code HAD (`mergeGOld`, the right operand wins a tie) the pivots
+  are 9 and 10 and the point at 9 is in part 1 under one tree and in part 0 under the other;
+* with the repaired closure (`mergeG`) both trees return `[0, 1, 1, 1]`
+  (and every tree does: `rcb_bb_schedule_free_rounded` with `distLaws_rounding`).
+The real-code instance: 16384 points, `corpus/C06/n11_rcb_tie_across_blocks.case`. -/
+theorem n11_old_reduce_partition_depends_on_tree :
+    let s1 : RcbSched := ⟨.leaf, fun _ => .leaf, fun _ _ => .leaf, id⟩
+    let s2 : RcbSched := ⟨.leaf, fun _ => .leaf, fun _ _ => .node 2 .leaf .leaf, id⟩
+    let run := fun (mg : AccG Int → AccG Int → AccG Int) (s : RcbSched) =>
+      @runBBG Int roundingCoord mg s (fun _ _ => true) ⟨1, 100⟩ 1 [[0], [9], [10], [11]]
+        [1, 1, 1, 1] 4 [0] [11]
+    run (@mergeGOld Int roundingCoord) s1 = .ok [0, 1, 1, 1] ∧
+    run (@mergeGOld Int roundingCoord) s2 = .ok [0, 0, 1, 1] ∧
+    run (@mergeG Int roundingCoord) s1 = .ok [0, 1, 1, 1] ∧
+    run (@mergeG Int roundingCoord) s2 = .ok [0, 1, 1, 1] := by
+  refine ⟨by decide +kernel, by decide +kernel, by decide +kernel, by decide +kernel⟩
 
 /-! ## MultiJagged -/
 
@@ -298,9 +446,13 @@ What remains OUTSIDE (trusted or not covered):
   take effect in *some* order, relaxed stores to distinct cells behave like sequential writes:
   trusted, tested by the skeleton ops of the correspondence run; rayon's work stealing is not
   modelled;
-* floating point: all sums and distances here are exact integers.  With `f32` distances
-  `DistExact` fails (two coordinates can round to the same distance), with `f64` sums
-  associativity fails; the harness keeps its inputs in the exact regime (`ExactSums`);
+* floating point: all sums and distances in THIS theorem are exact integers.  For Rcb the
+  coordinate arithmetic need not be: `rcb_bb_schedule_free_rounded` holds over every coordinate
+  type whose comparisons are a strict weak order (with `f32` distances two coordinates can
+  round to the same distance – `DistExact` fails – and since /repo f4e2819 the pivot is the
+  first of them along every split tree; before, defect N11,
+  `n11_old_reduce_partition_depends_on_tree`).  With `f64` weight sums associativity fails;
+  the harness keeps its weights in the exact regime (`ExactSums`), NaN coordinates are outside;
 * the oriented-bounding-box frame of Rib / HilbertCurve / ZCurve (inertia matrix, eigenvector:
   `f64`, parameter `rotate` / `indexFn` / `region` here; K6 lived there) and the Hilbert
   encoder (C08);
@@ -349,6 +501,7 @@ end Coupe.ParAlgos
 
 #print axioms Coupe.ParAlgos.dist_exact_int
 #print axioms Coupe.ParAlgos.rcb_scan_tree_free
+#print axioms Coupe.ParAlgos.rcb_scan_index_tree_free
 #print axioms Coupe.ParAlgos.rcb_split_arrangement_free
 #print axioms Coupe.ParAlgos.rcb_ids_arrangement_free
 #print axioms Coupe.ParAlgos.rcb_bb_schedule_free
@@ -356,6 +509,15 @@ end Coupe.ParAlgos
 #print axioms Coupe.ParAlgos.rcb_two_schedules
 #print axioms Coupe.ParAlgos.rib_schedule_free
 #print axioms Coupe.ParAlgos.dist_exact_needed
+#print axioms Coupe.ParAlgos.distLaws_int
+#print axioms Coupe.ParAlgos.distLaws_rounding
+#print axioms Coupe.ParAlgos.rcb_scan_rounded_tree_free
+#print axioms Coupe.ParAlgos.rcb_split_schedule_free_rounded
+#print axioms Coupe.ParAlgos.rcb_ids_schedule_free_rounded
+#print axioms Coupe.ParAlgos.rcb_bb_schedule_free_rounded
+#print axioms Coupe.ParAlgos.rcb_schedule_free_rounded
+#print axioms Coupe.ParAlgos.rcb_rounded_exact_agree
+#print axioms Coupe.ParAlgos.n11_old_reduce_partition_depends_on_tree
 #print axioms Coupe.ParAlgos.mj_hierarchy_chunk_free
 #print axioms Coupe.ParAlgos.mj_seq_writes
 #print axioms Coupe.ParAlgos.mj_schedule_free
